@@ -610,6 +610,9 @@ def run(ctx):
     # a value remembered for later calls is keyed by every argument it depends on (nqsa/memo.py)
     from .. import memo
     memo.check(ctx, "C15.K", ['netqasm.lang.encoding', 'netqasm.backend.messages'])
+    # no type test that an earlier type test has already decided (a subclass tested after its base class: nqsa/shadow.py)
+    from .. import shadow
+    shadow.check(ctx, "C15.H", ['netqasm.lang.encoding', 'netqasm.backend.messages'])
 
 
 M = "netqasm/backend/messages.py"
